@@ -564,6 +564,12 @@ def c01_11(ctx):
     oth = [N(s.value) for s in c.body if isinstance(s, ast.Assign) and U(s.targets[0]) == 'others']
     if oth != ['as_list(others)', NS('[cls(other) if not isinstance(other, cls) else other for other in others]')]:
         ctx.fail(c, c.node, 'the operands are not normalised as a list of tables (records converted with cls(other)): %s' % oth)
+    else:
+        conv = [k for k, s in enumerate(c.body) if isinstance(s, ast.Assign) and U(s.targets[0]) == 'others']
+        exits = [k for k, s in enumerate(c.body) if any(isinstance(x, ast.Return) for x in ast.walk(s))]
+        if exits and conv and max(conv) > min(exits):
+            ctx.fail(c, c.body[min(exits)], 'an exit of concat comes before the operands are converted to tables: a single record (or a single dict) is returned as it is, not as a one-row table',
+                     witness='dictable.concat([dict(a=1)])')
     a = r.fn('_dictable:dictable.__add__')
     expect_guards(ctx, a, [('other is None or (is_num(other) and other == 0)', 'return self', 'sum() starts from 0')], where=a.body)
     check_dict_concat(ctx)
